@@ -80,6 +80,14 @@ CHECKS = {
             "and in ItemSpaces, the three containers must be disjoint, dir() and the names a probe formula sees must equal their "
             "union, attribute access must give the object of the right kind, and the library's self-checks must pass.",
             "the precedence between a model-level reference and a child space of the same name is not asserted"),
+    "C13": ("exploration",
+            "stateful property-based testing (Hypothesis): build/evaluate/capture-handle/delete histories with a handle invariant (raises DeletedObjectError everywhere, or is the registered object), a reference for statically defined objects, trace-graph inspection and a cold-twin comparison after each deletion",
+            "Handles to static and derived cells, spaces, ItemSpaces and their members are captured at arbitrary points of histories "
+            "that delete through every trigger (direct deletion, base member/base relation removal, ItemSpace discarding, renames, "
+            "formula changes). After every step each handle must either raise DeletedObjectError on every access or be the object "
+            "registered under its parent and name up to the model; defined objects are alive exactly when not deleted; the trace "
+            "graph mentions no deleted object; after deletions the model answers like a cold twin.",
+            "for derived and dynamic objects both outcomes are accepted (C07); reference proxies are not handles"),
     "C14": ("fault_enumeration",
             "fault injection with a process-wide audit hook: every file-system event of write_model/read_model is a fault point in turn (exhaustive per case), plus consecutive-failure sequences, pickling faults and a file corruption sweep, over Hypothesis-generated models",
             "For generated models, both container formats and 0-4 earlier good saves, the save (or load) is replayed from a restored "
